@@ -890,7 +890,7 @@ func (x *c09Seq) doTrunc(a core.Action) {
 		cls = 3
 	}
 	if (cls == 5 || cls == 6 || cls == 7) && nb < 2 {
-		cls = []int64{8, 9, 10}[p2%3]
+		cls = []int{8, 9, 10}[p2%3]
 	}
 	var off int64
 	switch cls {
@@ -928,7 +928,8 @@ func (x *c09Seq) doTrunc(a core.Action) {
 	if off == c09DataStart && x.sc.C("k_trunc27") == 0 {
 		off++
 	}
-	if x.ents[id].legacy && x.sc.C("k_fbshort") == 0 && off > 0 && off < c09NonceLen {
+	if x.w.fb != nil && x.sc.C("k_fbshort") == 0 && off > 0 && off < c09NonceLen {
+		// files of 1..11 bytes with the fallback reader configured: known finding
 		off = c09NonceLen
 	}
 	if off < 0 || off >= size {
@@ -949,6 +950,11 @@ func (x *c09Seq) doExtend(a core.Action) {
 	}
 	cls := ((a.Arg(1) % 7) + 7) % 7
 	n := []int{1, 15, 16, 17, c09EncBlock, 1 + c09abs(a.Arg(2))%70000, 28}[cls]
+	// resulting sizes that are known findings are left to the knob runs
+	for (size+int64(n) == c09DataStart && x.sc.C("k_trunc27") == 0) ||
+		(x.w.fb != nil && x.sc.C("k_fbshort") == 0 && size+int64(n) < c09NonceLen) {
+		n++
+	}
 	var g []byte
 	if a.Arg(3)%4 == 0 {
 		g = make([]byte, n) // zeros
